@@ -104,7 +104,8 @@ PROPS["C04"] = {
                    "pending while an available, unbound item exists (availability from the harness's own put time + delay).",
     "jobs": lambda tier: _jobs_store_family(("C04",), "both", "both", tier) + [
         m1(s, "arrivals", 2 if tier == "quick" else 3, 1 if tier == "quick" else 2, ("C04",), 12 if tier == "quick" else 60)
-        for s in ("RPRS", "RPRFS", "BUF_FIFO", "BUF_LIFO", "RPRFS_TD", "FLEET", "FLEET0")],
+        for s in ("RPRS", "RPRFS", "BUF_FIFO", "BUF_LIFO", "RPRFS_TD", "FLEET", "FLEET0")] + [
+        m1(s, "spaceget", 2, 1 if tier == "quick" else 2, ("C04",), 12 if tier == "quick" else 60) for s in ("RPRS", "BUF_FIFO", "FLEET", "RPRFS_TD")],
     "required_witnesses": ["C04:pending-put-checked", "C04:pending-get-checked"],
     "nontrivial_witnesses": ["complete"],
     "twin": twin_m1("BUF_FIFO", "both"),
@@ -196,6 +197,7 @@ def _jobs_c11(tier):
         if q:
             jobs.append(spec_job(f"M1/C11/{s}", "vfy.m1", "scenario_c11", 14, store=s, N=2, K=1, R2=0, RMAX=2, S=1, TRN=1))
             jobs.append(spec_job(f"M1/C11/{s}/transit2", "vfy.m1", "scenario_c11", 10, store=s, N=1, K=1, R2=0, RMAX=1, S=0, TRN=2))
+            jobs.append(spec_job(f"M1/C11/{s}/spaceget", "vfy.m1", "scenario_c11", 12, store=s, N=2, K=1, family="spaceget"))
         else:
             jobs.append(spec_job(f"M1/C11/{s}", "vfy.m1", "scenario_c11", 90, store=s, N=2, K=2, R2=1, RMAX=3, S=2, TRN=2))
     return jobs
@@ -264,6 +266,7 @@ def fan_cfgs(tier):
     C["fanin-fa-srcfa"] = dict(n_src=2, n_out=1, n_items=2, w=1, src_out_sel="FIRST_AVAILABLE", in_delay="sym-last", out_delay=0, sym=("iat",))
     C["fanout-sink-fanin"] = dict(n_src=1, n_out=2, n_items=3, w=2, out_cap=1, sink_fanin=True)
     C["fanout-sink-fanin-tie"] = dict(n_src=2, n_out=2, n_items=2, w=2, out_cap=2, sink_fanin=True, same_iat=True, sym=("iat", "pd"), out_delay=0)
+    C["line-w2-varying-consumer"] = dict(n_src=1, n_out=1, n_items=3, w=2, out_cap=1, out_delay="sym-each", sym=("pd",))
     C["line-zero-iat"] = dict(n_src=1, n_out=1, n_items=3, w=1, iat_lo=0)
     C["fanin-fa-indelay"] = dict(n_src=2, n_out=1, n_items=2, w=1, in_delay="sym-last", out_delay=0, sym=("iat",))
     C["fanin-fa-w2-tie"] = dict(n_src=2, n_out=1, n_items=2, w=2, same_iat=True, per_item_pd=True)
@@ -530,6 +533,7 @@ def pk_cfgs(tier):
     C["r13-cap1"] = dict(recipe=(1, 3), n_pallets=2, item_cap=1, sym=("ii", "pd"))
     C["r12-splitq1"] = dict(recipe=(1, 2), n_pallets=2, split_quantity=1, sym=("ii",))
     C["no-combiner-rr"] = dict(recipe=(1,), n_pallets=3, no_combiner=True, split_out=2, split_sel="ROUND_ROBIN", out_delay="sym", sym=("ip", "sd"))
+    C["r11-varying-consumer"] = dict(recipe=(1, 1), n_pallets=3, comb_only=True, out_delay="sym-each", mid_cap=1, sym=("pd",))
     C["r12-blocked-out"] = dict(recipe=(1, 2), n_pallets=3, comb_only=True, out_delay="sym", mid_cap=1, sym=("ip", "pd"))
     C["r12-comb-only"] = dict(recipe=(1, 2), n_pallets=2, comb_only=True, out_delay="sym")
     if not q:
@@ -575,7 +579,7 @@ PROPS["C18"]["jobs"] = lambda tier: _c18_jobs(tier) + pk_jobs("C18", tier, names
 _c03_jobs = PROPS["C03"]["jobs"]
 PROPS["C03"]["jobs"] = lambda tier: _c03_jobs(tier) + pk_jobs("C03", tier, names=["r11", "r12", "r11-rr2", "r12-nonblocking", "r12-comb-only", "r11-lifo-mid"])
 _c08_jobs = PROPS["C08"]["jobs"]
-PROPS["C08"]["jobs"] = lambda tier: _c08_jobs(tier) + pk_jobs("C08", tier, names=["r11", "r12", "r111", "r11-rr2", "r11-split-in-idx", "r12-blocked-out", "no-combiner-rr"])
+PROPS["C08"]["jobs"] = lambda tier: _c08_jobs(tier) + pk_jobs("C08", tier, names=["r11", "r12", "r111", "r11-rr2", "r11-split-in-idx", "r12-blocked-out", "r11-varying-consumer", "no-combiner-rr"])
 PROPS["C08"]["required_witnesses"] = PROPS["C08"]["required_witnesses"] + ["C08:combiner-residence-checked"]
 _c17_jobs = PROPS["C17"]["jobs"]
 PROPS["C17"]["jobs"] = lambda tier: _c17_jobs(tier) + pk_jobs("C17", tier, names=["r11", "r12", "r11-rr2", "r11-rr2-blocked", "r12-fa2", "no-combiner-rr"], extra_kw={"until": "sym"}) + pk_jobs(
@@ -609,6 +613,7 @@ def combo_cfgs(tier):
         C[f"nbsource-idx-{a}"] = light(dict(e1=a, e2="buffer", src_blocking=False))
     for a in kinds:
         C[f"w2-2src-{a}"] = light(dict(e1=a, e2=a, w=2, n_src=2, n_items=2))
+        C[f"w2-2src-buffer-{a}-cap1"] = light(dict(e1="buffer", e2=a, w=2, n_src=2, n_items=2, cap2=1))
     C["edges-first-buffer-cconv"] = dict(e1="buffer", e2="cconv", order="edges-first")
     C["edges-first-cconv-buffer"] = dict(e1="cconv", e2="buffer", order="edges-first", w=2)
     C["rr-in-buffer"] = dict(e1="buffer", e2="buffer", n_src=2, in_sel="ROUND_ROBIN", n_items=2)
